@@ -50,7 +50,13 @@ EqSet == IF Tier = "quick" THEN [a1 : Coef, a2 : {-1, 0, 1}, r1 : {0}, l : {0}, 
          ELSE [a1 : Coef, a2 : Coef, r1 : {0}, l : {0}, b : {0, 1, 2}, c : {0, 1, -3}]
 EqSetB == [a1 : {1, 2}, a2 : {0, 1}, r1 : {0, 1, 2}, l : {0, 1}, b : {0, 2}, c : {0, 1}]   \* unknowns / parameters on both sides
 
+\* overdetermined systems: three equations for the two unknowns - consistent ones (the third follows
+\* from the others) must be solved, inconsistent ones refused
+EqO == [a1 : {0, 1, -1}, a2 : {0, 1}, r1 : {0}, l : {0}, b : {0, 1}, c : {0, 2}]
+EqO1 == IF Tier = "quick" THEN { q \in EqO : q.b = 0 } ELSE EqO
+
 Init == \/ /\ tree \in (Skel \cup Leaves \cup D1) /\ tgt = Unset /\ sys = NoSys
+        \/ /\ tree = KI(0) /\ tgt = << "SYS3" >> /\ \E q \in EqO1 : sys = << q >>
         \/ /\ tree = KI(0) /\ tgt = << "SYS" >>
            /\ \/ \E q \in EqSet : sys = << q >>
               \/ \E q \in EqSetB : sys = << q >>
@@ -61,6 +67,9 @@ Next == \/ /\ tgt = Unset /\ NHoles(tree) > 0
            /\ tgt' \in Targets /\ UNCHANGED << tree, sys >>
         \/ /\ tgt = << "SYS" >> /\ Len(sys) = 1
            /\ \E q \in (IF sys[1] \in EqSet THEN EqSet ELSE EqSetB) : sys' = Append(sys, q)
+           /\ UNCHANGED << tree, tgt >>
+        \/ /\ tgt = << "SYS3" >> /\ Len(sys) < 3
+           /\ \E q \in (IF Len(sys) = 1 THEN EqO1 ELSE EqO) : sys' = Append(sys, q)
            /\ UNCHANGED << tree, tgt >>
 
 \* oracle sanity on the model: Cramer's rule gives a solution that Satisfies
@@ -91,7 +100,8 @@ SysSumFrom(i) == IF i > Len(sys) THEN 0
                  ELSE LET q == sys[i] IN 100 + i * (q.a1 + 2 * q.a2 + 3 * q.r1 + 5 * q.l + 7 * q.b + q.c) + SysSumFrom(i + 1)
 SysSum == SysSumFrom(1)
 Emit ==
-    /\ (tgt # Unset /\ tgt # << "SYS" >>) =>
+    /\ (tgt = << "SYS3" >> /\ Len(sys) = 3) => PrintSys(pp)
+    /\ (tgt # Unset /\ tgt # << "SYS" >> /\ tgt # << "SYS3" >>) =>
           /\ PrintT(ToJson([kind |-> "coeff", e |-> tree, tgt |-> tgt]))
           /\ (CollectOnModel \in {"OK", "SKIP"}
               \/ PrintT(ToJson([design |-> CollectOnModel, de |-> tree, dtgt |-> tgt])))
